@@ -1,7 +1,7 @@
 /-
   Model.Tsm.Ssm — one segmentation state machine: the code of `SSM`,
   `ClientSSM` and `ServerSSM` (py34/bacpypes/appservice.py, tree AFTER the
-  repairs fixes/Tsm-1 … Tsm-8), transcribed branch for branch.
+  repairs fixes/Tsm-1 … Tsm-9), transcribed branch for branch.
 
   Every handler is a function of the transaction's key and body and returns
   `(new body | none = set_state(COMPLETED/ABORTED): removed from its list,
@@ -119,6 +119,11 @@ def fillWindow (cfg : Cfg) (k : Key) (b : Body) (start : Nat) : Fill :=
   | none => { err := some .typeError }
   | some w => fillLoop cfg k b w w start
 
+/-- absolute index of the segment a SegmentAck with sequence number `seq`
+    acknowledges: `initialSequenceNumber + ((apduSeq - initialSequenceNumber) % 256)`
+    (fixes Tsm-3, Tsm-9) -/
+def ackedIndex (b : Body) (seq : Nat) : Nat := b.initSeq + (seq + 256 - b.initSeq % 256) % 256
+
 def sends (p : Peer) (l : List Apdu) : List Out := l.map (Out.send p)
 def raisedOf : Option Raise → List Out
   | none => []
@@ -188,11 +193,10 @@ def clientSegmentedRequest (cfg : Cfg) (now : Nat) (k : Key) (b : Body) (a : Apd
     let b := { b with window := some a.win }
     if !inWindow a.seq b.initSeq a.win then
       (some { b with timer := arm now cfg.segTimeout }, [])
-    else if b.sentAll then
+    else if ackedIndex b a.seq + 1 ≥ b.segCount then               -- fix Tsm-9: final ack
       (some { b with st := .awaitConf, timer := stateTimer now cfg.apduTimeout }, [])
     else
-      let b := { b with initSeq := b.initSeq + (a.seq + 256 - b.initSeq % 256) % 256 + 1,
-                        segRetry := 0 }
+      let b := { b with initSeq := ackedIndex b a.seq + 1, segRetry := 0 }
       let f := fillWindow cfg k b b.initSeq
       let b := { b with sentAll := b.sentAll || f.all }
       match f.err with
@@ -376,10 +380,9 @@ def serverSegmentedResponse (cfg : Cfg) (now : Nat) (k : Key) (b : Body) (a : Ap
     let b := { b with window := some a.win }
     if !inWindow a.seq b.initSeq a.win then
       (some { b with timer := arm now cfg.segTimeout }, [])
-    else if b.sentAll then (none, [])
+    else if ackedIndex b a.seq + 1 ≥ b.segCount then (none, [])    -- fix Tsm-9: final ack
     else
-      let b := { b with initSeq := b.initSeq + (a.seq + 256 - b.initSeq % 256) % 256 + 1,
-                        segRetry := 0 }
+      let b := { b with initSeq := ackedIndex b a.seq + 1, segRetry := 0 }
       let f := fillWindow cfg k b b.initSeq
       let b := { b with sentAll := b.sentAll || f.all }
       match f.err with
